@@ -112,6 +112,8 @@ func (cs *gcpClientStream) initStream(m interface{}) error {
 		return err
 	}
 	cs.ClientStream = realCS
+	// A creation error of an earlier attempt no longer applies.
+	cs.initStreamErr = nil
 	return nil
 }
 
